@@ -361,4 +361,6 @@ static std::string cmpfind_probe()
     return o.str();
 }
 
+VH_STARTUP_PROBE(cmpfind_probe)
+
 int main(int argc, char **argv) { vh::g_decoy = true; vh::g_probe = cmpfind_probe; return run_main(argc, argv, dispatch); }
